@@ -25,7 +25,15 @@ type contentPeer struct {
 	asked    []string
 	offered  [][]byte // keys the node under test offered to this peer
 	fallback func(pid string, key []byte) []byte
+	// dialDelay: how long this peer waits after an ACCEPT before it opens the announced stream
+	dialDelay time.Duration
+	// acceptGossip: accept what the node under test offers and keep what it then sends, so that the
+	// engine can judge what the node passes on to its neighbours
+	acceptGossip bool
+	gossiped     []gossipItem
 }
+
+type gossipItem struct{ key, val []byte }
 
 func (w *world) newContentPeer(cfg nodeCfg, peerVers []uint8) *contentPeer {
 	cp := &contentPeer{puppet: w.newPuppet(cfg), vers: cfg.versions, content: map[string]map[string][]byte{}}
@@ -48,6 +56,32 @@ func (w *world) newContentPeer(cfg nodeCfg, peerVers []uint8) *contentPeer {
 				}
 				cp.offered = append(cp.offered, ks...)
 				ver, _ := highestCommon(cp.vers, peerVers, true)
+				if cp.acceptGossip && len(ks) > 0 {
+					cid := cp.utp.CidWithAddr(from, addr, false)
+					go func() {
+						ctx, cancel := context.WithTimeout(context.Background(), 20*time.Second)
+						defer cancel()
+						st, err := cp.utp.AcceptWithCid(ctx, cid)
+						if err != nil {
+							return
+						}
+						rctx, rcancel := context.WithTimeout(context.Background(), 100*time.Second)
+						defer rcancel()
+						var data []byte
+						_, rerr := st.ReadToEOF(rctx, &data)
+						st.Close()
+						if items, ok := unframeItems(data); rerr == nil && ok && len(items) == len(ks) {
+							for i := range ks {
+								cp.gossiped = append(cp.gossiped, gossipItem{ks[i], items[i]})
+							}
+						}
+					}()
+					all := make([]bool, len(ks))
+					for i := range all {
+						all[i] = true
+					}
+					return encAccept(ver, cid.Send, all)
+				}
 				return encAccept(ver, 0, make([]bool, len(ks)))
 			case portalwire.FINDCONTENT:
 				if len(msg) < 5 {
@@ -111,6 +145,9 @@ func (cp *contentPeer) offerTo(to *enode.Node, id portalwire.ProtocolId, peerVer
 	var acc [][]byte
 	for _, i := range a.acceptedIdx() {
 		acc = append(acc, items[i])
+	}
+	if cp.dialDelay > 0 {
+		time.Sleep(cp.dialDelay)
 	}
 	ctx, cancel := context.WithTimeout(context.Background(), 20*time.Second)
 	defer cancel()
@@ -210,6 +247,13 @@ func runC02(seed uint64) {
 	V := w.newFullNode(nodeCfg{name: "V", port: 9001, key: detKey(seed, 1), versions: vv, maxUtp: 20, capacityMB: 1000}, []string{"history", "beacon"})
 	H := w.newContentPeer(nodeCfg{name: "H", port: 9002, key: detKey(seed, 2), versions: vv, maxUtp: 50}, vv)
 	B := w.newContentPeer(nodeCfg{name: "B", port: 9003, key: detKey(seed, 3), versions: vv, maxUtp: 50}, vv)
+	// G only listens: it reports a radius so that the node gossips to it, accepts and keeps what it is sent
+	G := w.newContentPeer(nodeCfg{name: "G", port: 9004, key: detKey(seed, 4), versions: vv, maxUtp: 50}, vv)
+	G.acceptGossip, H.acceptGossip, B.acceptGossip = true, true, true
+	w.spawn("sink-contact", func() error {
+		_, e := G.talk(V.self(), portalwire.History, encPing(G.self().Seq(), 0, encRadiusPayload(0, maxU256)))
+		return e
+	})
 	hist := V.nets["history"]
 	hpid := string(portalwire.History)
 	for _, g := range genuine {
@@ -529,6 +573,16 @@ func runC02(seed uint64) {
 			w.violate("C02", "stored-unbound", "stored under key %x.. (%d bytes): %s", head(pr.key, 7), len(pr.val), why)
 		} else {
 			w.probe("stored_bound")
+		}
+	}
+	// everything the node passed on to its neighbours must be bound
+	for _, cp := range []*contentPeer{G, H, B} {
+		for _, gi := range cp.gossiped {
+			if why := bind.judge(gi.key, gi.val); why != "" {
+				w.violate("C02", "gossiped-unbound", "the node gossiped key %x.. (%d bytes) to %s: %s", head(gi.key, 7), len(gi.val), cp.cfg.name, why)
+			} else {
+				w.probe("gossiped_bound")
+			}
 		}
 	}
 	// validator verdicts: accepted (nil error) items must be bound even if the put failed
